@@ -318,6 +318,16 @@ Definition spec_getrange (l : list attr) (sz : Z) : option (bytes * bytes) :=
   | Some a => Some (firstn (Z.to_nat sz) (skipn (Z.to_nat sz) (a_data a)), firstn (Z.to_nat sz) (a_data a))
   | None => None
   end.
+(** SDgetrange without a usable valid_range: the netCDF convention, two attributes valid_max and valid_min, both of
+    the variable's number type; each value is copied whole into the caller's buffer; the maximum is returned first *)
+Definition valid_max_name : bytes := [118; 97; 108; 105; 100; 95; 109; 97; 120].   (* "valid_max" *)
+Definition valid_min_name : bytes := [118; 97; 108; 105; 100; 95; 109; 105; 110].   (* "valid_min" *)
+Definition spec_getrange_fb (l : list attr) (vnt sz : Z) : option (bytes * bytes) :=
+  match find_attr l valid_max_name, find_attr l valid_min_name with
+  | Some a1, Some a2 => if (a_nt a1 =? vnt) && (a_nt a2 =? vnt) then Some (fixed sz (a_data a1), fixed sz (a_data a2)) else None
+  | _, _ => None
+  end.
+Definition opt_eqb (a b : option Z) : bool := match a, b with Some x, Some y => x =? y | None, None => true | _, _ => false end.
 Definition spec_setfill (l : list attr) (vnt sz : Z) (v : bytes) : list attr :=
   put_all l [mkAttr _FillValue vnt 1 (fixed sz v)].
 Definition spec_getfill (l : list attr) : option bytes := option_map a_data (find_attr l _FillValue).
@@ -441,13 +451,22 @@ Definition sd_step_with (hk : hooks) (s : state) (o : op) : state * res :=
     match znth (s_vars c) i with
     | None => (s, RFail)
     | Some v =>
-      match nt_size (v_nt v), find_attr (v_attrs v) _HDF_ValidRange with
-      | Some sz, Some a =>
-        if (a_nt a =? v_nt v) && (a_count a =? 2)
-        then match spec_getrange (v_attrs v) sz with Some (mx, mn) => (s, ROk [TB mx; TB mn]) | None => (s, RFail) end
-        else (s, RUnspec)     (* a valid_range of a foreign type / count: outside the predefined getter's domain *)
-      | Some _, None => (s, RSkip)    (* falls back to valid_max / valid_min (netCDF convention): not generated *)
-      | None, _ => (s, RUnspec)
+      match nt_size (v_nt v) with
+      | None => (s, RUnspec)
+      | Some sz =>
+        let fallback := match spec_getrange_fb (v_attrs v) (v_nt v) sz with
+                        | Some (mx, mn) => (s, ROk [TB mx; TB mn])
+                        | None => (s, RFail)
+                        end in
+        match find_attr (v_attrs v) _HDF_ValidRange with
+        | Some a =>
+          if opt_eqb (nc_type (a_nt a)) (nc_type (v_nt v))      (* "data->type == var->type": the netCDF type classes *)
+          then (if 2 <=? a_count a
+                then match spec_getrange (v_attrs v) sz with Some (mx, mn) => (s, ROk [TB mx; TB mn]) | None => (s, RFail) end
+                else (s, RUnspec))                               (* a one-value valid_range: read past its end *)
+          else fallback
+        | None => fallback
+        end
       end
     end
   | SdSetFill i val =>
